@@ -24,6 +24,7 @@ for l in open(sys.argv[1]):
     if j.get('error'): print("ERR", p, name, j['error'][:200].replace('\n', ' ')); bad += 1; continue
     if not j.get('applied'): print("SKIP", p, name); continue
     if kind == 'positive' and rule == 'known-miss': print("KNOWN-MISS", p, name, "(fired)" if fired else ""); continue
+    if kind == 'negative' and rule == 'known-false-alarm': print("KNOWN-FALSE-ALARM", p, name, "(silent)" if not fired else ""); continue
     if kind == 'positive' and not fired: print("MISS", p, name, rule); bad += 1
     elif kind == 'positive' and rule not in ('-', '') and not any((': ' + rule + ' / ') in f for f in fired): print("WRONGRULE", p, name, rule, fired[:2])
     elif kind == 'negative' and fired: print("NOISY", p, name, fired[:3]); bad += 1
